@@ -17,7 +17,7 @@ func init() {
 	register("C04", checkC04)
 	describe("C04", Meta{
 		Technique: "must-dominance of handshake guards on go/cfg for every simulator function that touches the valid/received lines, must-pass-through of the deferred-release step in VM.Step, and effect confinement of deferred-instruction closures (go/ssa)",
-		Claim:     "Decides the structural 4-phase-handshake clauses of C04 on the simulator side: received is raised only while valid is seen high and lowered only while it is seen low; a producer withdraws valid and advances only after it has seen received; a consumer that raises received either registers a deferred release or lowers it itself; the processor evaluates its deferred releases on every tick (on every normally returning path of VM.Step, whatever the opcode delay state); a deferred release acts on the VM it is executed for, not on a captured one. Necessary conditions for exactly-once delivery; the dynamic protocol (e.g. the documented re-sampling race that duplicates values), fan-out timing and the HDL side are not decided.",
+		Claim:     "Decides the structural 4-phase-handshake clauses of C04 on the simulator side: received is raised only while valid is seen high and lowered only while it is seen low; a producer withdraws valid and advances only after it has seen received; a consumer that raises received either registers a deferred release or lowers it itself; the processor evaluates its deferred releases on every tick (on every normally returning path of VM.Step, whatever the opcode delay state); a deferred release acts on the VM it is executed for, not on a captured one, and is registered under a name computed from the port index it captures (DEFKEY: the registry keeps one pending entry per name). Necessary conditions for exactly-once delivery; the dynamic protocol (e.g. the documented re-sampling race that duplicates values), fan-out timing and the HDL side are not decided.",
 		Note:      "The handshake users are discovered from the code (every function of pkg/procbuilder that indexes InputsValid/InputsRecv/OutputsValid/OutputsRecv), not listed. Index identity is by expression text within one function.",
 		DesignRef: "DESIGN.md §2 C04",
 	})
@@ -409,6 +409,11 @@ func deferredClosureConfinement(r *core.Run, prog *core.Program, prop string) {
 							continue
 						}
 						n++
+						if prop == "C04" {
+							if mc, ok := stripConv(a).(*ssaMakeClosure); ok {
+								deferredKeyRule(r, prog, fn, cc, mc, target)
+							}
+						}
 						inst := fmt.Sprintf("%s/DEFERRED:%s", prop, core.SSAFuncKey(target))
 						pos := prog.Pos(target.Pos())
 						var bad *effect
@@ -431,4 +436,214 @@ func deferredClosureConfinement(r *core.Run, prog *core.Program, prop string) {
 		}
 	}
 	r.Count("deferred_instruction_closures", n)
+}
+
+
+// deferredKeyRule (C04/DEFKEY): VM.AddDeferredInstruction keeps one pending instruction per name
+// (a second registration under a pending name is dropped). A deferred release that captures a port
+// index must therefore be registered under a name that is a function of that index; otherwise the
+// release for a second port, requested while the first is pending, is lost and that port's recv line
+// is never lowered. Decided on the SSA def-use graph: the name argument's backward slice must contain
+// a read of every captured integer cell; through a registering helper the obligation is carried to
+// each call site of the helper (name parameter vs. index parameter).
+func deferredKeyRule(r *core.Run, prog *core.Program, fn *ssaFn, cc *ssa.CallCommon, mc *ssaMakeClosure, target *ssaFn) {
+	var nameVal ssa.Value
+	for _, a := range cc.Args {
+		if b, ok := a.Type().Underlying().(*types.Basic); ok && b.Kind() == types.String {
+			nameVal = a
+		}
+	}
+	if nameVal == nil {
+		return
+	}
+	for bi, bnd := range mc.Bindings {
+		// captured cell of integer type
+		pt, ok := bnd.Type().Underlying().(*types.Pointer)
+		if !ok {
+			continue
+		}
+		bt, ok := pt.Elem().Underlying().(*types.Basic)
+		if !ok || bt.Info()&types.IsInteger == 0 {
+			continue
+		}
+		fvName := ""
+		if bi < len(target.FreeVars) {
+			fvName = target.FreeVars[bi].Name()
+		}
+		inst := fmt.Sprintf("C04/DEFKEY:%s:%s", core.SSAFuncKey(target), fvName)
+		pos := prog.Pos(target.Pos())
+		ok2, why := keyDependsOnCell(prog, fn, nameVal, bnd, 0)
+		if ok2 {
+			r.OK("C04/DEFKEY", inst, pos, "the registration name is computed from the captured index "+fvName)
+		} else {
+			r.Violation("C04/DEFKEY", inst, pos, fmt.Sprintf("deferred instruction %s captures the port index %s but is registered under a name that does not depend on it (%s): AddDeferredInstruction keeps one pending instruction per name, so the release for a second port requested while the first is pending is dropped and that port's recv line stays raised — the producer's next value is acknowledged without being read", core.SSAFuncKey(target), fvName, why))
+		}
+	}
+}
+
+// sliceContains: does the backward slice of v (string building operators only) contain a value
+// satisfying pred?
+func sliceContains(v ssa.Value, pred func(ssa.Value) bool, seen map[ssa.Value]bool) bool {
+	if v == nil || seen[v] {
+		return false
+	}
+	seen[v] = true
+	if pred(v) {
+		return true
+	}
+	switch x := v.(type) {
+	case *ssa.BinOp:
+		return sliceContains(x.X, pred, seen) || sliceContains(x.Y, pred, seen)
+	case *ssa.Convert:
+		return sliceContains(x.X, pred, seen)
+	case *ssa.ChangeType:
+		return sliceContains(x.X, pred, seen)
+	case *ssa.MakeInterface:
+		return sliceContains(x.X, pred, seen)
+	case *ssa.Phi:
+		for _, e := range x.Edges {
+			if !sliceContains(e, pred, seen) {
+				return false // every incoming name must depend on the index
+			}
+		}
+		return len(x.Edges) > 0
+	case *ssa.Call:
+		if c := x.Call.StaticCallee(); c != nil && c.Pkg != nil && (c.Pkg.Pkg.Path() == "strconv" || c.Pkg.Pkg.Path() == "fmt") {
+			for _, a := range x.Call.Args {
+				if sliceContains(a, pred, seen) {
+					return true
+				}
+			}
+		}
+	case *ssa.Slice:
+		return sliceContains(x.X, pred, seen)
+	case *ssa.UnOp:
+		if x.Op == token.MUL {
+			// load of a local cell: look at what was stored there (single store)
+			if al, ok := x.X.(*ssa.Alloc); ok {
+				var stored ssa.Value
+				cnt := 0
+				for _, ref := range *al.Referrers() {
+					if st, ok := ref.(*ssa.Store); ok && st.Addr == al {
+						stored = st.Val
+						cnt++
+					}
+				}
+				if cnt == 1 {
+					return sliceContains(stored, pred, seen)
+				}
+			}
+			// variadic slice element (fmt.Sprintf args)
+			if ia, ok := x.X.(*ssa.IndexAddr); ok {
+				return sliceContains(ia.X, pred, seen)
+			}
+		}
+	case *ssa.Alloc:
+		// variadic backing array: any element stored into it
+		for _, ref := range *x.Referrers() {
+			if ia, ok := ref.(*ssa.IndexAddr); ok {
+				for _, r2 := range *ia.Referrers() {
+					if st, ok := r2.(*ssa.Store); ok && sliceContains(st.Val, pred, seen) {
+						return true
+					}
+				}
+			}
+		}
+	}
+	return false
+}
+
+func keyDependsOnCell(prog *core.Program, fn *ssaFn, nameVal ssa.Value, cell ssa.Value, depth int) (bool, string) {
+	isLoadOfCell := func(v ssa.Value) bool {
+		u, ok := v.(*ssa.UnOp)
+		return ok && u.Op == token.MUL && u.X == cell
+	}
+	// what initialises the cell? (a parameter spilled into it, or a local value)
+	var cellInit ssa.Value
+	if al, ok := cell.(*ssa.Alloc); ok {
+		cnt := 0
+		for _, ref := range *al.Referrers() {
+			if st, ok := ref.(*ssa.Store); ok && st.Addr == al {
+				cellInit = st.Val
+				cnt++
+			}
+		}
+		if cnt != 1 {
+			cellInit = nil
+		}
+	}
+	pred := func(v ssa.Value) bool { return isLoadOfCell(v) || (cellInit != nil && v == cellInit) }
+	if sliceContains(nameVal, pred, map[ssa.Value]bool{}) {
+		return true, ""
+	}
+	// helper: the name comes in as a parameter, the index too — carry the obligation to the callers
+	nameParam := -1
+	idxParam := -1
+	findParam := func(v ssa.Value) int {
+		found := -1
+		sliceContains(v, func(x ssa.Value) bool {
+			if p, ok := x.(*ssa.Parameter); ok {
+				for i, q := range fn.Params {
+					if q == p {
+						found = i
+					}
+				}
+				return true
+			}
+			return false
+		}, map[ssa.Value]bool{})
+		return found
+	}
+	nameParam = findParam(nameVal)
+	if p, ok := cellInit.(*ssa.Parameter); ok {
+		for i, q := range fn.Params {
+			if q == p {
+				idxParam = i
+			}
+		}
+	}
+	if nameParam < 0 || idxParam < 0 || depth > 3 {
+		return false, "the name is built in " + core.SSAFuncKey(fn) + " without reading it"
+	}
+	sites := 0
+	for _, e := range prog.CHA().Nodes[fn].In {
+		site := e.Site
+		if site == nil || site.Common().StaticCallee() != fn {
+			continue
+		}
+		sites++
+		args := site.Common().Args
+		if nameParam >= len(args) || idxParam >= len(args) {
+			return false, "call site arity"
+		}
+		idxArg := args[idxParam]
+		caller := e.Caller.Func
+		if _, isConst := idxArg.(*ssa.Const); isConst {
+			continue
+		}
+		// the index argument is a value in the caller; the name argument must be computed from it
+		samePred := func(v ssa.Value) bool {
+			if v == idxArg {
+				return true
+			}
+			// two loads of the same cell
+			u1, ok1 := v.(*ssa.UnOp)
+			u2, ok2 := idxArg.(*ssa.UnOp)
+			return ok1 && ok2 && u1.Op == token.MUL && u2.Op == token.MUL && u1.X == u2.X
+		}
+		if sliceContains(args[nameParam], samePred, map[ssa.Value]bool{}) {
+			continue
+		}
+		// or the caller is itself a helper
+		if u, ok := idxArg.(*ssa.UnOp); ok && u.Op == token.MUL {
+			if ok3, _ := keyDependsOnCell(prog, caller, args[nameParam], u.X, depth+1); ok3 {
+				continue
+			}
+		}
+		return false, fmt.Sprintf("at the call of %s in %s (%s) the name argument is not computed from the index argument", fn.Name(), core.SSAFuncKey(caller), prog.Pos(site.Pos()))
+	}
+	if sites == 0 {
+		return false, "registering helper " + core.SSAFuncKey(fn) + " has no resolved call site"
+	}
+	return true, ""
 }
